@@ -100,6 +100,7 @@ def _setup_env():
 
     classes = {}
     by_pkg = {}
+    typed = vt_typed_fields()
     for name, ver, parent, pkg, aux in VT_FAMILY:
         base = classes[parent] if parent else MetadataSchema
         pl = {"name": name, "version": ver}
@@ -108,6 +109,13 @@ def _setup_env():
         fld = "f_" + name.split(".")[1] + str(ver[0])
         ns = {"__annotations__": {"tag": str, fld: Optional[int]}, fld: None, "Plugin": type("Plugin", (), pl),
               "__module__": __name__}
+        if not parent:
+            # the roots of the family carry one optional field per kind of field type of the schema library (inherited by
+            # all descendants, so every vt.* input is valid input of every vt.* schema): their JSON Schemas - embedded in the
+            # containers - contain what the parser types export (`schema_info`, patterns, nested definitions)
+            for f, hint in typed.items():
+                ns["__annotations__"][f] = Optional[hint]
+                ns[f] = None
         cls = type(base)("VT_%s_%d_%d_%d" % (name.replace(".", "_"), *ver), (base,), ns)
         register_in_group(schemas, cls, violently=True)
         schemas._ENTRY_POINTS[to_ep_name(name, ver)] = _EP(pkg, cls)
@@ -132,6 +140,19 @@ def _setup_env():
         _env["jsonschema"][ep(r.name, r.version)] = json.loads(cls.schema_json())
     _env["unreg"] = {}
     return _env
+
+
+def vt_typed_fields():
+    """field name -> type hint of the optional typed fields of the vt.* roots (real code; worker only)."""
+    import datetime
+    from typing import List
+
+    from metador_core.schema import types as T
+    from metador_core.schema.common import NumValue, Pixels
+
+    return {"dur": T.Duration, "qty": T.PintQuantity, "unit": T.PintUnit, "num": T.Float, "cnt": T.Int, "flag": T.Bool,
+            "mime": T.MimeTypeStr, "hsum": T.QualHashsumStr, "note": T.NonEmptyStr, "when": datetime.datetime, "day": datetime.date,
+            "px": Pixels, "nv": NumValue, "durs": List[T.Duration], "words": List[T.NonEmptyStr]}
 
 
 def exact_class(name, ver):
@@ -203,8 +224,185 @@ def env_info(_case=None):
     return out
 
 
-def make_instance_dict(name, k):
-    """k-th valid instance (as dict) for schema `name` (any version)."""
+def unique_key(name):
+    """The field that keeps generated instances of a schema distinct (never overlaid)."""
+    return "tag" if name.startswith("vt.") else "name"
+
+
+N_FIELD_VALUES, N_FIELD_DRAWS, N_RANDOM_INPUTS = 40, 240, 60
+
+
+def _multiset(v):
+    if isinstance(v, (set, frozenset)):
+        return len(v) > 1 or any(_multiset(x) for x in v)
+    if isinstance(v, dict):
+        return any(_multiset(x) for x in v.values())
+    if isinstance(v, (list, tuple)):
+        return any(_multiset(x) for x in v)
+    return False
+
+
+def _overlay_ok(cls, targets, name, base, ov):
+    """Is `base + ov` a valid instance of schema `name` that the container histories can use: valid for the class,
+    with a stable stored form (parse . dump is the identity on it: what C12 is about is left to C12; sets of more
+    than one element have no defined order), and convertible to every class a history may pass it to."""
+    d = dict(base)
+    d.update(ov)
+    try:
+        d = json.loads(json.dumps(d))
+        obj = cls.parse_obj(d)
+        b = bytes(obj)
+        o2 = cls.parse_raw(b)
+        if o2 != obj or bytes(o2) != b or _multiset(obj.dict()):
+            return False
+        if bytes(cls.parse_obj(obj.dict())) != b or bytes(cls.parse_obj(json.loads(obj.json()))) != b:
+            return False
+        for K in targets:
+            mks = [lambda: K.parse_obj(obj.dict()), lambda: K.parse_raw(b), lambda: K.parse_obj(json.loads(obj.json()))]
+            if K.Plugin.name == name:
+                mks.append(lambda: K.parse_obj(d))
+            for mk in mks:
+                v = mk()
+                if K.parse_raw(bytes(v)) != v or bytes(K.parse_raw(bytes(v))) != bytes(v):
+                    return False
+    except Exception:  # noqa: BLE001
+        return False
+    return True
+
+
+def field_pool(req):
+    """(worker) Overlays for the instances of schema `req["name"]`: for EVERY field of the schema class (own and
+    inherited, nested models included) values of its type drawn from the boundary corpora of `schema_gen` (durations with
+    fractions / sign / weeks / zero, units, quantities, numbers 0 / negative / float / huge, odd strings, urls, dates,
+    nested persons / organisations ...), one field at a time, plus random multi-field inputs. Only what the real class
+    accepts and stores stably is kept (`_overlay_ok`). Deterministic (private generator seeded with the name)."""
+    import random
+
+    from . import schema_gen as G
+
+    name = req["name"]
+    e = _setup_env()
+    S = e["schemas"]
+    mine = [S._LOADED_PLUGINS[r] for r in e["refs"] if r.name == name]
+    cls = mine[-1]
+    if name.startswith("vt."):
+        targets = [S._LOADED_PLUGINS[r] for r in e["refs"] if r.name.startswith("vt.")]
+    else:
+        anc = set()
+        for r in e["refs"]:
+            if r.name == name:
+                anc.update((q.name, tuple(q.version)) for q in S.parent_path(r.name, tuple(r.version)))
+        targets = [S._LOADED_PLUGINS[r] for r in e["refs"] if r.name == name or (r.name, tuple(r.version)) in anc]
+    rng = random.Random("instpool:" + name)
+    base = make_instance_dict(name, 0)
+    keep = unique_key(name)
+    consts = getattr(cls, "__constants__", {})
+    cands = []
+    for fname, mf in cls.__fields__.items():
+        if fname in consts or mf.alias == keep:
+            continue
+        seen = set()
+        for _ in range(N_FIELD_DRAWS):
+            v = G.gen_for_hint(rng, mf.outer_type_, 2)
+            if v is G.OMIT or v is None:
+                continue
+            try:
+                key = json.dumps(v, sort_keys=True)
+            except Exception:  # noqa: BLE001
+                continue
+            if key not in seen:
+                seen.add(key)
+                cands.append({mf.alias: json.loads(key)})
+                if len(seen) >= N_FIELD_VALUES:
+                    break
+    for _ in range(N_RANDOM_INPUTS):
+        try:
+            d = json.loads(json.dumps(G.gen_model_input(rng, cls, 2)))
+        except Exception:  # noqa: BLE001
+            continue
+        d.pop(keep, None)
+        for c in consts:
+            d.pop(c, None)
+        for attempt in range(6):
+            try:
+                x = dict(base)
+                x.update(d)
+                cls.parse_obj(json.loads(json.dumps(x)))
+                break
+            except Exception as ex:  # noqa: BLE001
+                errs = getattr(ex, "errors", None)
+                if errs is None or not G.repair_input(d, errs()):
+                    break
+        cands.append(d)
+    ok = [ov for ov in cands if ov and _overlay_ok(cls, targets, name, base, ov)]
+    return dict(name=name, overlays=ok, tried=len(cands), fields=sorted(set(k for ov in ok for k in ov)))
+
+
+_INSTPOOL = {}
+
+
+def get_instpool():
+    """{schema name: [overlay ...]} computed once per run by worker processes from the real schema classes."""
+    if not _INSTPOOL:
+        from .. import pool
+
+        cache = _instpool_cache_file()
+        if cache and os.path.exists(cache):
+            try:
+                _INSTPOOL.update(json.load(open(cache)))
+                return _INSTPOOL
+            except Exception:  # noqa: BLE001
+                _INSTPOOL.clear()
+        res = pool.run("harness.props.ctr_common", "field_pool", [{"name": n} for n in SCHEMA_NAMES], timeout=600)
+        for n, r in zip(SCHEMA_NAMES, res):
+            if "ok" not in r:
+                raise lean.InfraError("cannot build the instance pool of %s: %r" % (n, r))
+            _INSTPOOL[n] = r["ok"]["overlays"]
+        if cache:
+            try:
+                os.makedirs(os.path.dirname(cache), exist_ok=True)
+                tmp = "%s.%d.tmp" % (cache, os.getpid())
+                json.dump(_INSTPOOL, open(tmp, "w"))
+                os.replace(tmp, cache)
+            except OSError:
+                pass
+    return _INSTPOOL
+
+
+def _instpool_cache_file():
+    """The pool is a function of the library under test (its Python sources), of the pools / generators of the harness
+    and of nothing else: it is kept in /verif/work (git-ignored) under the hash of those files."""
+    import hashlib
+
+    h = hashlib.sha256()
+    root = os.path.join(os.environ.get("METADOR_REPO", "/repo"), "src", "metador_core")
+    files = []
+    for dp, dn, fn in os.walk(root):
+        dn.sort()
+        files += [os.path.join(dp, f) for f in sorted(fn) if f.endswith(".py")]
+    here = os.path.dirname(os.path.abspath(__file__))
+    files += [os.path.join(here, "ctr_common.py"), os.path.join(here, "schema_gen.py")]
+    try:
+        for f in files:
+            h.update(f[len(root):].encode() if f.startswith(root) else os.path.basename(f).encode())
+            h.update(open(f, "rb").read())
+    except OSError:
+        return None
+    return os.path.join(core.VERIF, "work", "instpool-%s.json" % h.hexdigest()[:20])
+
+
+def make_instance_dict(name, k, vr=None):
+    """k-th valid instance (as dict) for schema `name` (any version). With a generator `vr`: mostly overlaid with
+    values from the boundary pool of the schema's fields (`field_pool`); the field `unique_key(name)` keeps it distinct."""
+    d = _plain_instance_dict(name, k)
+    if vr is not None:
+        ovs = get_instpool().get(name) or []
+        if ovs and vr.random() < 0.8:
+            d.update(json.loads(json.dumps(vr.choice(ovs))))
+    return d
+
+
+def _plain_instance_dict(name, k):
     tag = "%s#%d" % (name, k)
     if name.startswith("vt."):
         return {"tag": tag}
@@ -266,7 +464,8 @@ class _Run:
         for i, (cls, obj, b) in enumerate(self.insts):
             d = case["insts"][i][2]
             for K in self.related_classes(cls):
-                for mk in (lambda: K.parse_obj(d), lambda: K.parse_obj(obj.dict()), lambda: K.parse_raw(b)):
+                for mk in (lambda: K.parse_obj(d), lambda: K.parse_obj(obj.dict()), lambda: K.parse_raw(b),
+                           lambda: K.parse_obj(json.loads(obj.json()))):
                     try:
                         self.by_bytes.setdefault(bytes(mk()), "i%d" % i)
                     except Exception:  # noqa: BLE001
@@ -274,6 +473,7 @@ class _Run:
         self.stored = {}  # uuid -> instance index (harness bookkeeping for C07)
         self.held = {}  # slot -> live node wrapper (several wrappers of one node, kept across operations)
         self.held_at = {}  # slot -> path the wrapper was obtained at
+        self.pid = None  # property the run is for (set by `impl`); C07: every live handle of a node is observed
 
     # ------------------------------------------------------------------ helpers
     def hit(self, prop, kind, **kw):
@@ -293,8 +493,10 @@ class _Run:
                 anc = [(r.name, tuple(r.version)) for r in self.schemas.parent_path(ref.name, tuple(ref.version))]
             except KeyError:
                 anc = []
+            # vt.*: a history may pass an instance of any schema of the family for any other one (`value_schema`)
             memo[cls] = [self.schemas._LOADED_PLUGINS[r] for r in self.env["refs"]
-                         if r.name == ref.name or (r.name, tuple(r.version)) in anc]
+                         if r.name == ref.name or (r.name, tuple(r.version)) in anc
+                         or (ref.name.startswith("vt.") and r.name.startswith("vt."))]
         return memo[cls]
 
     def set_key(self, s):
@@ -719,21 +921,33 @@ class _Run:
             if where == "live":
                 b = bytes(self.raw()[op][()])
                 try:
-                    jsonschema.Draft7Validator.check_schema(js)
-                    errs = list(jsonschema.Draft7Validator(js).iter_errors(json.loads(b)))
+                    # (an object does not change while it is stored: each (schema text, object bytes) pair is evaluated once)
+                    memo = self.__dict__.setdefault("_validated", {})
+                    mk = (e, b) if js == self.env["jsonschema"].get(e) else None
+                    if mk is not None and mk in memo:
+                        errs = memo[mk]
+                    else:
+                        jsonschema.Draft7Validator.check_schema(js)
+                        errs = [str(x.message)[:200] for x in jsonschema.Draft7Validator(js).iter_errors(json.loads(b))][:1]
+                        if mk is not None:
+                            memo[mk] = errs
                     if errs:
-                        H("object-does-not-validate", schema=e, error=str(errs[0].message)[:200], inst=self.by_bytes.get(b, "?"))
+                        H("object-does-not-validate", schema=e, error=errs[0], inst=self.by_bytes.get(b, "?"))
                     else:
                         self.tags.add("validated:" + n)
                 except Exception as ex:  # noqa: BLE001
                     H("embedded-schema-unusable", schema=e, error="%s: %s" % (type(ex).__name__, str(ex)[:200]))
 
     # ------------------------------------------------------------------ fresh container on the same data
-    def compare_fresh(self, live_obs, step, reopened):
+    def compare_fresh(self, live_obs, step, reopened, objs=None):
         try:
             fresh = self.MC(self.raw())
         except Exception as e:  # noqa: BLE001
             self.hit("C06", "index-cannot-be-rebuilt-from-disk", step=step, error="%s: %s" % (type(e).__name__, str(e)[:200]))
+            if objs:
+                # C20: the description of the stored objects "is what a freshly opened container reports" - it reports nothing
+                self.hit("C20", "freshly-opened-container-cannot-be-built", step=step, where="fresh", objects=len(objs),
+                         error="%s: %s" % (type(e).__name__, str(e)[:200]))
             raise
         fo = self.toc_obs(fresh)
         if fo != live_obs:
@@ -830,6 +1044,99 @@ class _Run:
         self.held_at[slot] = path
         return w
 
+    # ------------------------------------------------------------------ C07 through every live handle of a node
+    def meta_dir(self, path, node):
+        """Raw path of the metadata directory of the user node at `path` (no TOC, no wrapper used)."""
+        if path == "/":
+            return "/metador_meta_"
+        if self.is_ds(node):
+            par, _, last = path.rpartition("/")
+            return par + "/metador_meta_" + last
+        return path + "/metador_meta_"
+
+    def stored_at(self, path, node):
+        """[(entry point name, dataset name)] of the objects in the raw metadata directory of a node."""
+        d = self.meta_dir(path, node)
+        raw = self.raw()
+        if d not in raw:
+            return d, []
+        return d, sorted((x.split("=", 1)[0], x) for x in raw[d].keys() if "=" in x)
+
+    def observe_meta(self, handles, path, node, names, step):
+        """C07 as seen through metadata handles of ONE node (`handles` = [(label, thunk giving the
+        MetadorMeta)]): keys() are the schema names of the objects stored in the raw metadata directory,
+        `in` / get answer from what is stored NOW (compatible object exists <=> found; the stored object of
+        the requested schema comes back equal to it). Oracle only (the model has one picture per node)."""
+        H = lambda kind, **kw: self.hit("C07", kind, step=step, node=path, **kw)  # noqa: E731
+        d, stored = self.stored_at(path, node)
+        eps = [e for e, _ in stored]
+        have = sorted(self.ref_of(e)[0] for e in eps)
+        probes = set(have) | set(n for n in names if n in SCHEMA_NAMES)
+        for n in list(probes):
+            probes.update(PARENT_HINT.get(n, []))
+        for label, thunk in handles:
+            try:
+                m = thunk()
+                got = sorted(m.keys())
+            except Exception as e:  # noqa: BLE001
+                H("metadata-handle-broken", handle=label, error="%s: %s" % (type(e).__name__, str(e)[:120]))
+                continue
+            if got != have:
+                H("keys-differ-from-stored-objects", handle=label, keys=got, stored=have)
+            if len(m) != len(have):
+                H("len-differs-from-stored-objects", handle=label, len=len(m), stored=have)
+            for name in sorted(probes | set(got)):
+                cands = [(e, x) for e, x in stored if self.spec_match(e, name, None)]
+                try:
+                    has = name in m
+                except Exception as e:  # noqa: BLE001
+                    has = "err:" + type(e).__name__
+                if has != bool(cands):
+                    H("contains-differs-from-stored-objects", handle=label, schema=name, got=has, stored=[c[0] for c in cands])
+                try:
+                    obj, err = m.get(name), None
+                except Exception as e:  # noqa: BLE001
+                    obj, err = None, type(e).__name__
+                if err:
+                    try:
+                        ok_refuse = bool(self.schemas._get_unsafe(name, None).Plugin.auxiliary)
+                    except KeyError:
+                        ok_refuse = True
+                    if not ok_refuse or not cands:
+                        H("get-raised", handle=label, schema=name, version=None, error=err)
+                    continue
+                if obj is None:
+                    if cands:
+                        H("get-missed-object", handle=label, schema=name, version=None, present=[c[0] for c in cands])
+                    continue
+                if not cands:
+                    H("get-returned-object-that-is-not-stored", handle=label, schema=name)
+                    continue
+                exact = [c for c in cands if self.ref_of(c[0])[0] == name]
+                cls = self.schemas._get_unsafe(name, None)
+                ok = False
+                for e, x in (exact or cands):
+                    try:
+                        v = cls.parse_raw(bytes(self.raw()[d][x][()]))
+                        if v == obj and json.loads(v.json()) == json.loads(obj.json()):
+                            ok = True
+                    except Exception:  # noqa: BLE001
+                        pass
+                if not ok:
+                    H("get-differs-from-stored" if exact else "get-not-a-view-of-a-compatible-object", handle=label, schema=name,
+                      cands=[c[0] for c in cands])
+                self.tags.add("handle-get-checked")
+
+    def live_handles(self, path, fresh):
+        """(label, thunk) of every kept wrapper that denotes the node at `path` now, `.meta` taken afresh."""
+        res = []
+        for slot, w in sorted(self.held.items(), key=lambda kv: str(kv[0])):
+            if self.same_node(w, fresh, path):
+                res.append(("slot%s/%s" % (slot, self.held_at.get(slot)), (lambda w=w: w.meta)))
+        if len(res) > 1:
+            self.tags.add("several-live-wrappers-of-one-node-observed")
+        return res
+
     # ------------------------------------------------------------------ operations
     def status(self, f, *a):
         try:
@@ -869,6 +1176,15 @@ class _Run:
                     return "err"
                 used.add(id(w))
                 res.append(self.meta_sub(w.meta, w, s, step))  # `.meta` afresh at each use
+                if self.pid == "C07":
+                    # the node's metadata as every live wrapper of it reports it now (this also makes each
+                    # wrapper look at `.meta` before another one writes next)
+                    try:
+                        fresh = mc[op[1]]
+                    except Exception:  # noqa: BLE001
+                        fresh = None
+                    if fresh is not None:
+                        self.observe_meta(self.live_handles(op[1], fresh) + [("lookup", lambda: fresh.meta)], op[1], fresh, [s[1]], step)
             if len(used) > 1:
                 self.tags.add("several-wrappers-of-one-node-in-one-op")
             return "+".join(res)
@@ -882,6 +1198,9 @@ class _Run:
             res = []
             for s in subs:
                 res.append(self.meta_sub(m, node, s, step))
+                if self.pid == "C07":
+                    # a kept handle sees its own writes; kept wrappers of the node see them too
+                    self.observe_meta([("kept", lambda: m)] + self.live_handles(op[1], node), op[1], node, [s[1]], step)
             return "+".join(res)
         if k == "sattr":  # C09: attribute of a user node through the container wrapper
             from .h5util import dec_val
@@ -1024,9 +1343,13 @@ class _Run:
                 if len(names) != len(set(names)):
                     self.hit("C07", "two-objects-of-one-schema-at-node", step=step, node=host, objects=sorted(e for e, _, _ in l))
             live = self.toc_obs(self.mc)
-            fresh = self.compare_fresh(live, step, op[0] == "reopen")
-            self.check_selfdesc(self.mc, objs, step, "live")
-            self.check_selfdesc(fresh, objs, step, "fresh")
+            # (oracle-only parts are evaluated for the property the run is for: `impl_for` drops the hits of the others anyway)
+            if self.pid in (None, "C20"):
+                self.check_selfdesc(self.mc, objs, step, "live")  # before the rebuild: a container that cannot be opened afresh ends the run
+            if self.pid != "C07":
+                fresh = self.compare_fresh(live, step, op[0] == "reopen", objs)
+                if self.pid in (None, "C20"):
+                    self.check_selfdesc(fresh, objs, step, "fresh")
             items = [(k, n, name, tuple(ver) if ver else None) for k, n, name, ver in obs_items[step]]
             obs = self.run_obs(items, att, entries, step)
             out.append(st)
@@ -1049,6 +1372,7 @@ def impl(case, pid=None):
     r = None
     try:
         r = _Run(case, tmp)
+        r.pid = pid
         try:
             out = r.run()
         except Exception as e:  # noqa: BLE001
@@ -1237,7 +1561,7 @@ def gen_attr_op(rng, sh, nodes):
     return ["sattr", p, k, rng.choice(ATTR_VALS)]
 
 
-def gen_history(rng, n_ops, driver, insts, held=True, nq=5, nfinal=24, obs=None, sh=None, boundaries=True, attr_p=0.0):
+def gen_history(rng, n_ops, driver, insts, held=True, nq=5, nfinal=24, obs=None, sh=None, boundaries=True, attr_p=0.0, rich=False):
     """Returns ops; appends used instances to `insts` and per-step observation items to `obs`.
     C09 passes its own `sh`, `boundaries=False` (no reopen/patch ops: they are inserted per
     variant there) and `attr_p` > 0 (attribute ops on user nodes)."""
@@ -1245,9 +1569,17 @@ def gen_history(rng, n_ops, driver, insts, held=True, nq=5, nfinal=24, obs=None,
     ops = []
     obs = obs if obs is not None else []
 
+    # rich: the fields of the instances are filled from the boundary pools of their types (`field_pool`); the choices come
+    # from a private generator seeded with the current state of `rng`, so the stream of `rng` itself is untouched
+    vr = None
+    if rich:
+        import random
+
+        vr = random.Random(int(core.digest(repr(rng.getstate())), 16))
+
     def inst_for(name, ver):
         k = len(insts)
-        insts.append([name, list(ver) if ver else None, make_instance_dict(name, k)])
+        insts.append([name, list(ver) if ver else None, make_instance_dict(name, k, vr)])
         return k
 
     def pick_ver(name):
@@ -1559,7 +1891,7 @@ def gen_history(rng, n_ops, driver, insts, held=True, nq=5, nfinal=24, obs=None,
 WRAP_ROUTES = ("item", "get", "steps", "parent", "values", "visit", "query", "self")
 
 
-def add_wrappers(case, p_conv=0.6, p_more=0.45):
+def add_wrappers(case, p_conv=0.6, p_more=0.45, p_dup=0.0, rich=False):
     """Re-route metadata operations of a generated history through HELD NODE WRAPPERS (`hmeta`):
     several live wrappers of the same node, obtained by different navigation routes, kept across
     later operations (also move / copy / delete of the node) and used in turn, each taking `.meta`
@@ -1577,8 +1909,10 @@ def add_wrappers(case, p_conv=0.6, p_more=0.45):
     slots = {}  # slot -> [believed path, route, names it believes attached, was moved since it was obtained]
     out = []
 
+    vr = random.Random(int(core.digest(ops), 16) ^ 0x5EED) if rich else None  # instance contents: their own generator
+
     def new_inst(name):
-        insts.append([name, None, make_instance_dict(name, len(insts))])
+        insts.append([name, None, make_instance_dict(name, len(insts), vr)])
         return len(insts) - 1
 
     def new_slot(p):
@@ -1636,6 +1970,17 @@ def add_wrappers(case, p_conv=0.6, p_more=0.45):
             if wr.random() < p_more:
                 for _ in range(wr.randrange(1, 4)):
                     have = sh.meta.setdefault(p, set())
+                    if p_dup and have and wr.random() < p_dup:
+                        # a wrapper attaches what is attached already - preferably one that was obtained before
+                        # another wrapper attached it (refused: one object per schema, whoever asks)
+                        a = pick_slot(p, avoid=last if wr.random() < 0.7 else None, stale=True)
+                        other = sorted(have - slots[a][2])
+                        name = wr.choice(other) if other and wr.random() < 0.85 else wr.choice(sorted(have))
+                        s = ["set", name, None, new_inst(name)]
+                        seq.append([a, slots[a][1], s])
+                        did(a, s, p)
+                        last = a
+                        continue
                     q = wr.random()
                     if q < 0.5 and have:
                         a = pick_slot(p, avoid=last if wr.random() < 0.7 else None, stale=True)
@@ -1685,7 +2030,7 @@ def add_wrappers(case, p_conv=0.6, p_more=0.45):
     return dict(case, ops=out, insts=insts)
 
 
-def gen_case(rng, quick=True, held=True, driver=None, n_ops=None, wrappers=False):
+def gen_case(rng, quick=True, held=True, driver=None, n_ops=None, wrappers=False, wrap_args=None, rich=True):
     insts = []
     driver = driver or rng.choice(["h5", "ih5"])
     n = n_ops or rng.randrange(6, 22 if quick else 40)
@@ -1695,9 +2040,9 @@ def gen_case(rng, quick=True, held=True, driver=None, n_ops=None, wrappers=False
         nq, nfinal = 4, (24 if driver == "h5" else 10)
     else:
         nq, nfinal = 8, (-1 if driver == "h5" and rng.random() < 0.3 else 40 if driver == "h5" else 16)
-    ops = gen_history(rng, n, driver, insts, held=held, nq=nq, nfinal=nfinal, obs=obs, sh=sh)
+    ops = gen_history(rng, n, driver, insts, held=held, nq=nq, nfinal=nfinal, obs=obs, sh=sh, rich=rich)
     case = dict(driver=driver, ops=ops, insts=insts, obs=obs)
-    return add_wrappers(case) if wrappers else case
+    return add_wrappers(case, rich=rich, **(wrap_args or {})) if wrappers else case
 
 
 # --------------------------------------------------------------------------- model lines
@@ -1960,7 +2305,8 @@ PARTS = {
     "C20": {"selfdesc"},
 }
 N_CASES = {"quick": 150, "thorough": 1500}
-WRAPPER_PROPS = ("C06",)  # histories of these properties use held node wrappers (`add_wrappers`)
+WRAPPER_PROPS = ("C06", "C07")  # histories of these properties use held node wrappers (`add_wrappers`)
+WRAPPER_ARGS = {"C07": dict(p_dup=0.3)}  # C07: kept wrappers also attach what another wrapper attached meanwhile
 
 
 def impl_for(pid, case):
@@ -1973,7 +2319,7 @@ def cases_for(ctx, pid):
     cases = core.load_corpus(pid)
     n = N_CASES["quick" if ctx.quick else "thorough"]
     for _ in range(n):
-        cases.append(gen_case(ctx.rng, quick=ctx.quick, held=True, wrappers=pid in WRAPPER_PROPS))
+        cases.append(gen_case(ctx.rng, quick=ctx.quick, held=True, wrappers=pid in WRAPPER_PROPS, wrap_args=WRAPPER_ARGS.get(pid)))
     return cases
 
 
@@ -1988,7 +2334,13 @@ def run_prop(ctx, pid, mod, rule_extra=""):
                 "followed by removal of metadata (last object of a schema, schemas whose descendants stay in use); attached schemas biased to "
                 "relatives / package mates of those in use) on h5py.File and IH5Record, over the "
                 "installed schemas core.file/dir/bib/imagefile/table and a harness-registered family vt.* (11 schemas, 2 packages, several "
-                "versions, 3-level inheritance, auxiliary parent). After EVERY step: canonical raw dump, TOC cache observations (public API + "
+                "versions, 3-level inheritance, auxiliary parent; the roots carry optional fields of every kind of field type of the schema "
+                "library: Duration, PintQuantity, PintUnit, Float, Int, Bool, MimeTypeStr, QualHashsumStr, NonEmptyStr, datetime, date, Pixels, "
+                "NumValue, lists). Instances: about 80 % are overlaid with values from a pool built on every run from the real schema classes "
+                "(`field_pool`: for EVERY field - own, inherited, nested models - up to 40 values of its type from the boundary corpora of "
+                "schema_gen: durations with fractional seconds / sign / weeks / zero, units, quantities, numbers 0 / negative / float / huge, "
+                "odd strings, urls, dates, persons / organisations; one field at a time plus random multi-field inputs; kept when the class "
+                "accepts them and stores them stably). After EVERY step: canonical raw dump, TOC cache observations (public API + "
                 "_toc_path), sampled get/query observations; compared with the Lean model `drv_ctr`. Non-trivial = tagged (copy/move/delete of "
                 "nodes with metadata, refused sets, record removal, reopen with metadata, queries answered by descendant schemas ...). " + rule_extra)
     ctx.assumptions += [
@@ -2131,7 +2483,7 @@ def search(ctx, pid, mod):
 
     for k in range(1, 4):
         sub = core.Ctx(pid, "quick" if k < 3 else "thorough", ctx.seed + 7919 * k)
-        cases = [gen_case(sub.rng, quick=(k < 3), held=True, wrappers=pid in WRAPPER_PROPS) for _ in range(150)]
+        cases = [gen_case(sub.rng, quick=(k < 3), held=True, wrappers=pid in WRAPPER_PROPS, wrap_args=WRAPPER_ARGS.get(pid)) for _ in range(150)]
         res = pool.run(mod, "impl", cases, timeout=240)
         ctx.search_log.append("seed %d: %d histories, oracle only" % (sub.seed, len(cases)))
         for c, r in zip(cases, res):
